@@ -48,6 +48,43 @@ def build_region(cpu, isa, nmax=48):
     return b"".join(words)
 
 
+def delay_regions(cpu, isa, tier):
+    """ISAs with delayed branches: every sequence of length 4 over {delayed branch, other control flow, plain}
+    followed by two plain instructions, swept from its first instruction (a control-flow instruction may sit in
+    a delay slot; a delayed branch may follow a delayed branch)"""
+    d = cpu.disassemble
+    S = isas.flatten(d.specs[d.iset()])
+    e = d.endian()
+    cls = {}
+    for s in S:
+        if len(cls) == 3:
+            break
+        if s.pfx:
+            continue
+        for b in specwords.cases_for_spec(isa, s, e, d.maxlen, "quick"):
+            if not b:
+                continue
+            setattr(d, "_disassembler__i", None)
+            try:
+                i = d(b)
+            except Exception:
+                setattr(d, "_disassembler__i", None)
+                continue
+            if i is None or i.length != len(b):
+                continue
+            k = "D" if i.misc.get("delayed", False) else ("C" if i.type == 2 else "N")
+            cls.setdefault(k, bytes(i.bytes))
+            break
+    if "D" not in cls or "C" not in cls or "N" not in cls:
+        return []
+    out = []
+    for seq in itertools.product("DCN", repeat=4 if tier == "quick" else 5):
+        if "D" not in seq:
+            continue
+        out.append((b"".join(cls[k] for k in seq) + cls["N"] * 2, [0]))
+    return out
+
+
 def ref_sequence(cpu, buf, start):
     """independent fetch loop: list of (addr, length, is_cf, delayed)"""
     d = cpu.disassemble
@@ -91,155 +128,157 @@ def sweep_unit(args):
     cpu = isas.load(isa)
     fails = []
     stats = {"starts": 0, "instructions": 0, "blocks": 0, "slices": 0, "cuts": 0}
-    buf = build_region(cpu, isa, 64 if tier == "thorough" else 40)
+    REG = [(build_region(cpu, isa, 64 if tier == "thorough" else 40), None)] + delay_regions(cpu, isa, tier)
+    stats["regions"] = len(REG)
+    for buf, only_starts in REG:
 
-    def F(what, detail, start, rank=0):
-        fails.append(Failure((isa, "sweep", what), "%s region %s start %d: %s" % (isa, buf.hex()[:64], start, detail),
-                             {"kind": "sweep", "isa": isa, "region": buf.hex(), "start": start}, rank=rank).to_json())
-    try:
-        p = amoco.load_program(buf, cpu=cpu)
-    except Exception as ex:
-        F("load-exc:%s@%s" % exc_sig(ex), "load_program raised %r" % (ex,), 0)
-        return {"fails": fails, "stats": stats}
-    psz = cpu.PC().size
-    for start in range(0, min(len(buf), 64 if tier == "quick" else 128)):
-        stats["starts"] += 1
-        seq = ref_sequence(cpu, buf, start)
-        if seq and seq[-1][0] == "exc":
-            seq = seq[:-1]
-            raises = True
-        else:
-            raises = False
-        z = lsweep(p)
-        got = []
+        def F(what, detail, start, rank=0):
+            fails.append(Failure((isa, "sweep", what), "%s region %s start %d: %s" % (isa, buf.hex()[:64], start, detail),
+                                 {"kind": "sweep", "isa": isa, "region": buf.hex(), "start": start}, rank=rank).to_json())
         try:
-            for i in z.sequence(cpu.cst(start, psz)):
-                got.append((i.address.v if hasattr(i.address, "v") else int(i.address), i.length))
-                if len(got) > len(seq) + 2:
-                    break
+            p = amoco.load_program(buf, cpu=cpu)
         except Exception as ex:
-            if not raises:
-                # reading beyond the mapped region raises MemoryError by design at the very end
-                if not (isinstance(ex, MemoryError) and (not seq or seq[-1][0] + seq[-1][1] >= len(buf))):
-                    F("sequence-exc:%s@%s" % exc_sig(ex), "sequence raised %r after %d instructions" % (ex, len(got)), start)
-                    continue
-        stats["instructions"] += len(got)
-        want = [(a, n) for (a, n, *_r) in seq]
-        if got[:len(want)] != want[:len(got)] or (not raises and len(got) != len(want)):
-            k = next((j for j in range(min(len(got), len(want))) if got[j] != want[j]), min(len(got), len(want)))
-            F("sequence", "instruction %d: sweep yields %r, independent fetch loop %r" % (k, got[k:k + 2], want[k:k + 2]), start)
+            F("load-exc:%s@%s" % exc_sig(ex), "load_program raised %r" % (ex,), 0)
             continue
-        for a, b in zip(got, got[1:]):
-            if b[0] != a[0] + a[1]:
-                F("consecutive", "instruction at %#x (length %d) followed by %#x" % (a[0], a[1], b[0]), start)
-                break
-        if raises:
-            continue
-        # blocks
-        want_blocks = ref_blocks(seq)
-        try:
-            blocks = list(lsweep(p).iterblocks(cpu.cst(start, psz)))
-        except MemoryError:
-            blocks = None
-        except Exception as ex:
-            F("iterblocks-exc:%s@%s" % exc_sig(ex), "iterblocks raised %r" % (ex,), start)
-            continue
-        if blocks is None:
-            # the sweep ran off the mapped region: re-collect what was produced before the error
-            blocks = []
+        psz = cpu.PC().size
+        for start in (only_starts if only_starts is not None else range(0, min(len(buf), 64 if tier == "quick" else 128))):
+            stats["starts"] += 1
+            seq = ref_sequence(cpu, buf, start)
+            if seq and seq[-1][0] == "exc":
+                seq = seq[:-1]
+                raises = True
+            else:
+                raises = False
+            z = lsweep(p)
+            got = []
             try:
-                for b in lsweep(p).iterblocks(cpu.cst(start, psz)):
-                    blocks.append(b)
+                for i in z.sequence(cpu.cst(start, psz)):
+                    got.append((i.address.v if hasattr(i.address, "v") else int(i.address), i.length))
+                    if len(got) > len(seq) + 2:
+                        break
+            except Exception as ex:
+                if not raises:
+                    # reading beyond the mapped region raises MemoryError by design at the very end
+                    if not (isinstance(ex, MemoryError) and (not seq or seq[-1][0] + seq[-1][1] >= len(buf))):
+                        F("sequence-exc:%s@%s" % exc_sig(ex), "sequence raised %r after %d instructions" % (ex, len(got)), start)
+                        continue
+            stats["instructions"] += len(got)
+            want = [(a, n) for (a, n, *_r) in seq]
+            if got[:len(want)] != want[:len(got)] or (not raises and len(got) != len(want)):
+                k = next((j for j in range(min(len(got), len(want))) if got[j] != want[j]), min(len(got), len(want)))
+                F("sequence", "instruction %d: sweep yields %r, independent fetch loop %r" % (k, got[k:k + 2], want[k:k + 2]), start)
+                continue
+            for a, b in zip(got, got[1:]):
+                if b[0] != a[0] + a[1]:
+                    F("consecutive", "instruction at %#x (length %d) followed by %#x" % (a[0], a[1], b[0]), start)
+                    break
+            if raises:
+                continue
+            # blocks
+            want_blocks = ref_blocks(seq)
+            try:
+                blocks = list(lsweep(p).iterblocks(cpu.cst(start, psz)))
             except MemoryError:
-                pass
-        stats["blocks"] += len(blocks)
-        gb = [[(i.address.v, i.length) for i in b.instr] for b in blocks]
-        wb = [[(a, n) for (a, n, *_r) in blk] for blk in want_blocks]
-        if gb[:len(wb)] != wb[:len(gb)] or abs(len(gb) - len(wb)) > 1:
-            k = next((j for j in range(min(len(gb), len(wb))) if gb[j] != wb[j]), min(len(gb), len(wb)))
-            F("block-partition", "block %d is %r, expected the maximal run %r" % (k, gb[k] if k < len(gb) else None, wb[k] if k < len(wb) else None), start)
-            continue
-        for b, blk in zip(blocks, want_blocks):
-            a0 = blk[0][0]
-            tot = sum(x[1] for x in blk)
-            sup = b.support
-            if (sup[0].v if hasattr(sup[0], "v") else sup[0]) != a0 or (sup[1].v if hasattr(sup[1], "v") else sup[1]) != a0 + tot:
-                F("support", "block at %#x: support %s, expected (%#x,%#x)" % (a0, sup, a0, a0 + tot), start)
-                break
-            if b.raw() != buf[a0:a0 + tot] or b.length != tot:
-                F("raw", "block at %#x: raw() %s differs from the region bytes %s" % (a0, b.raw().hex(), buf[a0:a0 + tot].hex()), start)
-                break
-            # slicing at every pair of boundaries / a non-boundary
-            offs = [0]
-            for x in blk:
-                offs.append(offs[-1] + x[1])
-            bad = False
-            for ia in range(len(offs)):
-                for ib in range(ia + 1, len(offs)):
-                    stats["slices"] += 1
+                blocks = None
+            except Exception as ex:
+                F("iterblocks-exc:%s@%s" % exc_sig(ex), "iterblocks raised %r" % (ex,), start)
+                continue
+            if blocks is None:
+                # the sweep ran off the mapped region: re-collect what was produced before the error
+                blocks = []
+                try:
+                    for b in lsweep(p).iterblocks(cpu.cst(start, psz)):
+                        blocks.append(b)
+                except MemoryError:
+                    pass
+            stats["blocks"] += len(blocks)
+            gb = [[(i.address.v, i.length) for i in b.instr] for b in blocks]
+            wb = [[(a, n) for (a, n, *_r) in blk] for blk in want_blocks]
+            if gb[:len(wb)] != wb[:len(gb)] or abs(len(gb) - len(wb)) > 1:
+                k = next((j for j in range(min(len(gb), len(wb))) if gb[j] != wb[j]), min(len(gb), len(wb)))
+                F("block-partition", "block %d is %r, expected the maximal run %r" % (k, gb[k] if k < len(gb) else None, wb[k] if k < len(wb) else None), start)
+                continue
+            for b, blk in zip(blocks, want_blocks):
+                a0 = blk[0][0]
+                tot = sum(x[1] for x in blk)
+                sup = b.support
+                if (sup[0].v if hasattr(sup[0], "v") else sup[0]) != a0 or (sup[1].v if hasattr(sup[1], "v") else sup[1]) != a0 + tot:
+                    F("support", "block at %#x: support %s, expected (%#x,%#x)" % (a0, sup, a0, a0 + tot), start)
+                    break
+                if b.raw() != buf[a0:a0 + tot] or b.length != tot:
+                    F("raw", "block at %#x: raw() %s differs from the region bytes %s" % (a0, b.raw().hex(), buf[a0:a0 + tot].hex()), start)
+                    break
+                # slicing at every pair of boundaries / a non-boundary
+                offs = [0]
+                for x in blk:
+                    offs.append(offs[-1] + x[1])
+                bad = False
+                for ia in range(len(offs)):
+                    for ib in range(ia + 1, len(offs)):
+                        stats["slices"] += 1
+                        try:
+                            sub = b[offs[ia]:offs[ib]]
+                        except Exception as ex:
+                            F("slice-exc:%s@%s" % exc_sig(ex), "block[%d:%d] raised %r" % (offs[ia], offs[ib], ex), start)
+                            bad = True
+                            break
+                        exp_ = [(x[0], x[1]) for x in blk[ia:ib]]
+                        if sub is None or [(i.address.v, i.length) for i in sub.instr] != exp_:
+                            F("slice", "block[%d:%d] gives %r expected %r" % (offs[ia], offs[ib], None if sub is None else [(i.address.v, i.length) for i in sub.instr], exp_), start)
+                            bad = True
+                            break
+                    if bad:
+                        break
+                if bad:
+                    break
+                nonb = [o for o in range(1, tot) if o not in offs]
+                if nonb:
                     try:
-                        sub = b[offs[ia]:offs[ib]]
+                        if b[nonb[0]:tot] is not None:
+                            F("slice-nonboundary", "block[%d:%d] at a non-boundary returned a block" % (nonb[0], tot), start)
+                            break
                     except Exception as ex:
-                        F("slice-exc:%s@%s" % exc_sig(ex), "block[%d:%d] raised %r" % (offs[ia], offs[ib], ex), start)
+                        F("slice-exc:%s@%s" % exc_sig(ex), "block[%d:%d] raised %r" % (nonb[0], tot, ex), start)
+                        break
+                # cut at every boundary (on fresh blocks)
+                for k in range(len(blk)):
+                    stats["cuts"] += 1
+                    import copy
+                    bb = type(b)(list(b.instr))
+                    try:
+                        nrem = bb.cut(cpu.cst(blk[k][0], psz))
+                    except Exception as ex:
+                        F("cut-exc:%s@%s" % exc_sig(ex), "cut(%#x) raised %r" % (blk[k][0], ex), start)
                         bad = True
                         break
-                    exp_ = [(x[0], x[1]) for x in blk[ia:ib]]
-                    if sub is None or [(i.address.v, i.length) for i in sub.instr] != exp_:
-                        F("slice", "block[%d:%d] gives %r expected %r" % (offs[ia], offs[ib], None if sub is None else [(i.address.v, i.length) for i in sub.instr], exp_), start)
+                    if nrem != len(blk) - k or [(i.address.v, i.length) for i in bb.instr] != [(x[0], x[1]) for x in blk[:k]]:
+                        F("cut", "cut(%#x) removed %r and kept %r; expected %d removed, prefix of %d kept" % (
+                            blk[k][0], nrem, [(i.address.v) for i in bb.instr], len(blk) - k, k), start)
                         bad = True
                         break
                 if bad:
                     break
-            if bad:
-                break
-            nonb = [o for o in range(1, tot) if o not in offs]
-            if nonb:
-                try:
-                    if b[nonb[0]:tot] is not None:
-                        F("slice-nonboundary", "block[%d:%d] at a non-boundary returned a block" % (nonb[0], tot), start)
+                # cut at every address that is not an instruction boundary (inside and just outside the support):
+                # nothing may be removed
+                others = [a0 + o for o in nonb] + [a0 - 1, a0 + tot, a0 + tot + 1]
+                for adr in others:
+                    if adr < 0:
+                        continue
+                    stats["cuts"] += 1
+                    bb = type(b)(list(b.instr))
+                    try:
+                        nrem = bb.cut(cpu.cst(adr, psz))
+                    except Exception as ex:
+                        F("cut-exc:%s@%s" % exc_sig(ex), "cut(%#x) raised %r" % (adr, ex), start)
+                        bad = True
                         break
-                except Exception as ex:
-                    F("slice-exc:%s@%s" % exc_sig(ex), "block[%d:%d] raised %r" % (nonb[0], tot, ex), start)
+                    if nrem != 0 or [(i.address.v, i.length) for i in bb.instr] != [(x[0], x[1]) for x in blk]:
+                        F("cut-nonboundary", "cut(%#x) at an address that starts no instruction of the block removed %r and kept %r; expected nothing removed" % (
+                            adr, nrem, [(i.address.v) for i in bb.instr]), start)
+                        bad = True
+                        break
+                if bad:
                     break
-            # cut at every boundary (on fresh blocks)
-            for k in range(len(blk)):
-                stats["cuts"] += 1
-                import copy
-                bb = type(b)(list(b.instr))
-                try:
-                    nrem = bb.cut(cpu.cst(blk[k][0], psz))
-                except Exception as ex:
-                    F("cut-exc:%s@%s" % exc_sig(ex), "cut(%#x) raised %r" % (blk[k][0], ex), start)
-                    bad = True
-                    break
-                if nrem != len(blk) - k or [(i.address.v, i.length) for i in bb.instr] != [(x[0], x[1]) for x in blk[:k]]:
-                    F("cut", "cut(%#x) removed %r and kept %r; expected %d removed, prefix of %d kept" % (
-                        blk[k][0], nrem, [(i.address.v) for i in bb.instr], len(blk) - k, k), start)
-                    bad = True
-                    break
-            if bad:
-                break
-            # cut at every address that is not an instruction boundary (inside and just outside the support):
-            # nothing may be removed
-            others = [a0 + o for o in nonb] + [a0 - 1, a0 + tot, a0 + tot + 1]
-            for adr in others:
-                if adr < 0:
-                    continue
-                stats["cuts"] += 1
-                bb = type(b)(list(b.instr))
-                try:
-                    nrem = bb.cut(cpu.cst(adr, psz))
-                except Exception as ex:
-                    F("cut-exc:%s@%s" % exc_sig(ex), "cut(%#x) raised %r" % (adr, ex), start)
-                    bad = True
-                    break
-                if nrem != 0 or [(i.address.v, i.length) for i in bb.instr] != [(x[0], x[1]) for x in blk]:
-                    F("cut-nonboundary", "cut(%#x) at an address that starts no instruction of the block removed %r and kept %r; expected nothing removed" % (
-                        adr, nrem, [(i.address.v) for i in bb.instr]), start)
-                    bad = True
-                    break
-            if bad:
-                break
     return {"fails": fails, "stats": stats}
 
 
@@ -434,7 +473,8 @@ def run(tier, seed):
         "rule": "(a) per ISA with a raw loader a region of decodable instruction words (control flow and delay slots included) is "
                 "loaded; for every start address of a 64-byte window: lsweep.sequence versus an independent fetch loop, consecutive "
                 "addresses, iterblocks versus the maximal-run partition, support/raw/length of each block, block[a:b] for every pair "
-                "of boundaries and a non-boundary, cut at every boundary; (b) one x86 stream of N=%d instructions (lengths 1,2,3,1,5,2): "
+                "of boundaries and a non-boundary, cut at every boundary and at every non-boundary address; for ISAs with delayed "
+                "branches additionally every sequence of length 4 over {delayed branch, other control flow, plain}; (b) one x86 stream of N=%d instructions (lengths 1,2,3,1,5,2): "
                 "every history of <=%d insertions of contiguous runs (all %d runs) into cfg.graph, BFS with de-duplication on "
                 "(support, overlay, edges, inserted set); after each insertion: support nodes pairwise disjoint, extents equal block "
                 "lengths, every inserted instruction exactly once, overlay unused, fall-through edge at every split" % (N, depth, N * (N + 1) // 2),
